@@ -3,12 +3,12 @@
 tier=${1:-quick}
 cd /verif
 declare -A also=( [C01]="C04" [C02]="C12" [C03]="C12" [C12]="C03 C04" [C09]="C10 C13" [C10]="C09 C08" [C11]="C10" [C05]="C04" [C18]="C03" )
-out=seeded/MATRIX.md
+out=${MATRIX_OUT:-seeded/MATRIX.md}
 echo "# Seeded changes vs checks ($tier tier, $(git -C /repo rev-parse --short HEAD))" > $out
 echo "" >> $out
 echo "| change | summary | caught by (rc=1 with VIOLATION) | not caught by |" >> $out
 echo "|--------|---------|--------------------------------|---------------|" >> $out
-for d in seeded/C*/m*; do
+for d in seeded/C*/${MUT_GLOB:-m*}; do
   id=$(basename $(dirname $d)); m=$(basename $d)
   checks="$id ${also[$id]}"
   res=$(tools/try_mutant.sh $d/patch.diff $tier $checks 2>&1)
